@@ -18,7 +18,7 @@ Theorem C09_reparse_typed : forall t0 p0 t p, fields_valid cfg p0 -> build cfg P
   format_panics cfg P t = false /\ parse cfg P (format cfg P t p) = Ok (t, norm_parts p).
 Proof.
   intros t0 p0 t p. apply (C09_reparse cfg src_rt); try sc.
-  - apply (pt_finish_stable cfg src_rt); sc.
+  - apply (pt_finish_stable cfg); sc.
   - apply P_norm_commute. side.
   - intros t1 p1 t2 p2 _. cbn [sh_type sh_from_str ptype_shape]. destruct t2; split; reflexivity.
 Qed.
@@ -44,7 +44,7 @@ Print Assumptions C09_builder_keeps_collection_invariant.
 (* what build() keeps of the fields for the string shapes *)
 Theorem C09_fields_generic : forall t p t' p', fields_valid cfg p -> build cfg G t p = Ok (t', p') ->
   t' = make_ascii_lowercase t /\ valid_type cfg t' = true /\ p_name p' <> [] /\ fields_valid cfg p' /\ same_fields p p' /\ build cfg G t' p' = Ok (t', p').
-Proof. apply (build_G_stable cfg src_rt); sc. Qed.
+Proof. apply (build_G_stable cfg); sc. Qed.
 Print Assumptions C09_fields_generic.
 (* build() succeeds exactly when the hook accepts (type valid / type rule satisfied), the name is non-empty and any checksum is well-formed *)
 Theorem C09_build_succeeds_iff_generic : forall t p, (exists x, build cfg G t p = Ok x) <->
